@@ -50,6 +50,33 @@ block = ab + '\n' + '\n'.join(rows) + '\n' + ae
 if ab in text:
     text = text[:text.index(ab)] + block + text[text.index(ae) + len(ae):]
     open(f'{V}/DESIGN.md', 'w').write(text)
+# ---- section 6.1: fix commits and known findings
+import subprocess
+fb, fe = '<!-- BEGIN FIXES (generated from git log of /repo and known_findings.d) -->', '<!-- END FIXES -->'
+log = subprocess.run(['git', '-C', '/repo', 'log', '--reverse', '--format=%h %s', '42a56b7..HEAD'],
+                     stdout=subprocess.PIPE, text=True).stdout.strip().split('\n')
+rows = ['| commit in /repo | repair |', '|---|---|']
+for line in log:
+    h, _, msg = line.partition(' ')
+    if msg.startswith('fix:'):
+        rows.append('| `%s` | %s |' % (h, msg[4:].strip().replace('|', '/')))
+rows.append('')
+rows.append('Known findings (recorded, not repaired; each check prints `KNOWN-FINDING:` for exactly this key and '
+            'still reports any other violation):')
+rows.append('')
+rows.append('| property | match key | what fails |')
+rows.append('|---|---|---|')
+d0 = f'{V}/known_findings.d'
+for name in sorted(os.listdir(d0)):
+    if name.endswith('.json'):
+        for x in json.load(open(os.path.join(d0, name))).get('findings', []):
+            if x.get('status') == 'known':
+                rows.append('| %s | `%s` | %s |' % (x['property'], x.get('match'), x['what'].replace('|', '/')))
+text = open(f'{V}/DESIGN.md').read()
+block = fb + '\n' + '\n'.join(rows) + '\n' + fe
+if fb in text:
+    text = text[:text.index(fb)] + block + text[text.index(fe) + len(fe):]
+    open(f'{V}/DESIGN.md', 'w').write(text)
 allf = []
 d = f'{V}/known_findings.d'
 for name in sorted(os.listdir(d)):
